@@ -11,6 +11,22 @@ COMMON_NOTE = ("Trusted base: Coq 8.16.1 kernel + vm_compute (no native_compute,
                "modelled, not verified. ")
 
 CLAIMED = {
+ "C05": dict(
+  text="Representation independence is proved, axiom-free over Z, at the level of the specifications that the exactness theorems of C03 / C04 / C07 / C11 are "
+       "stated against: moving an atom by a lattice vector only re-labels the periodic images of its pair vectors and leaves the minimum-image length "
+       "unchanged; a unimodular re-description L' = U L (integer inverse) has the same periodic images of every vector; rotating structure and cell by an "
+       "orthogonal integer matrix leaves every image length unchanged; a rigid translation cancels in every pair difference. Since the code's bond list, "
+       "minimum images, RSS image sets and periodic selections are proved equal to those specifications (C03/C04/C07/C11), they inherit the invariance. "
+       "Tied to the code by a metamorphic run on the real API: LinkageList, Bonds (lengths, element pairs), molecule count and masses, hydrogen-bond counts, "
+       "dipolar couplings, dipolar RSS, periodic sphere selection and LatticeABC under rigid translation, the 48 exact rotations, generic rotations, per-atom "
+       "lattice shifts in [-3,3]^3, atom permutations, 12 unimodular cell transformations and supercells up to 2x2x2 (extensive counts x n, per-site values "
+       "and distinct bond lengths unchanged).",
+  note="PARTIAL: the supercell clause (counts x n, unchanged per-site values) and generic (non-integer) rotations are differential tests only; molecule counts are "
+       "compared only when every molecule is finite (infinite chains / networks do not multiply in any implementation), and cells with a lattice vector "
+       "shorter than the largest vdW contact are excluded (an atom in contact with its own periodic copy is not an atom pair i<j). Thresholded observables "
+       "use cutoffs / radii that never tie with distances between integer sites.",
+  technique="Coq proof (Z, ring/lia, no axioms) of spec-level invariance inherited through the exactness theorems + metamorphic differential testing on the real API",
+  design="§8 C05"),
  "C04": dict(
   text="Axiom-free theorems over Z about a hand model of _compute_bonds / Bonds.extract / Molecules.extract built on the C03 lattice model: for any "
        "non-singular cell, pbc mask, atoms stored in ANY periodic image and any non-negative radii, the bond list is exactly the pairs i<j and cells c with "
